@@ -473,8 +473,8 @@ def run_impl(exe, ops, timeout=60):
     return out.splitlines(), note, err
 
 
-def run_model(drv, ops, sub="world", timeout=120):
-    rc, out, err = vlib.run([drv, sub], inp=ops, timeout=timeout)
+def run_model(drv, ops, sub="world", timeout=120, extra=()):
+    rc, out, err = vlib.run([drv, sub] + list(extra), inp=ops, timeout=timeout)
     return out.splitlines(), (None if rc == 0 else "model driver rc=%s %s" % (rc, err[-300:]))
 
 
@@ -491,13 +491,98 @@ def line_eq(impl, model):
     return re.fullmatch(pat, impl) is not None
 
 
-def first_diff(impl, model):
+def first_diff(impl, model, eq=None):
+    eq = eq or line_eq
     n = max(len(impl), len(model))
     for i in range(n):
         a = impl[i] if i < len(impl) else "<missing>"
         b = model[i] if i < len(model) else "<missing>"
-        if not line_eq(a, b):
+        if not eq(a, b):
             return i, a, b
+    return None
+
+
+def spec_line_eq(impl, spec):
+    """projection line vs spec line. Callbacks of a flush (`ret=` lines): the spec lists them command by command;
+    an attachment cancelled inside the same locked section never takes effect, so the implementation may fire fewer -
+    but never more than the sequential count, and the net effect per (component, entity) must agree."""
+    if line_eq(impl, spec):
+        return True
+    if not (impl.startswith("ret=") and spec.startswith("ret=")):
+        return False
+    if _CB.sub("", impl) != _CB.sub("", spec):
+        return False
+
+    def count(l):
+        c = {}
+        for x in _CB.findall(l):
+            kind, comp, ent = x.strip()[3:].split(":")
+            k = (comp, ent)
+            a, r = c.get(k, (0, 0))
+            c[k] = (a + (kind == "assign"), r + (kind == "remove"))
+        return c
+    ci, cs = count(impl), count(spec)
+    for k in set(ci) | set(cs):
+        ia, ir = ci.get(k, (0, 0))
+        sa, sr = cs.get(k, (0, 0))
+        if ia - ir != sa - sr or ia > sa or ir > sr:
+            return False
+    return True
+
+
+_CB = re.compile(r" cb=\S+")
+_LIFE = re.compile(r" LIFECYCLE-ERROR\[[^\]]*\]")
+
+
+def project(lines):
+    """implementation observation lines -> the property-level projection the spec stream prints"""
+    out = []
+    for l in lines:
+        if l.startswith(("A ", "T ", "L ")):
+            continue
+        cbs = sorted(_CB.findall(l))
+        base = _CB.sub("", l)
+        if base.startswith("h "):
+            base = " ".join(base.split()[:2])
+        elif base.startswith("E ") and "valid=1" in base:
+            w = base.split()
+            comps = [x for x in w if x.startswith("comps=")][0]
+            sh = [x for x in w if x.startswith("shared=")][0][7:]
+            if sh != "-":
+                sh = ",".join(x.split(":")[0] + ":" + x.split("/")[-1] for x in sh.split(","))
+            base = "%s %s valid=1 %s shared=%s" % (w[0], w[1], comps, sh)
+        elif base.startswith("arch="):
+            base = "arch=null" if base == "arch=null" else "arch=some"
+        elif base.startswith("marked="):
+            base = "marked=*"
+        elif base == "none":
+            base = "ok"                       # cleararch of a component set no archetype has
+        elif base.startswith("teardown"):
+            base = "teardown" + "".join(_LIFE.findall(base))
+        out.append(base + "".join(cbs))
+    return out
+
+
+def shared_instances_ok(lines):
+    """C12 on the implementation's own dump: within one dump, per shared type, instance class <-> value is a bijection"""
+    cur = {}
+    for l in lines:
+        if l == "dump":
+            cur = {}
+        if l.startswith("E ") and "shared=" in l and "valid=1" in l:
+            sh = l.split("shared=")[1].split()[0]
+            if sh == "-":
+                continue
+            for x in sh.split(","):
+                t, rest = x.split(":")
+                if rest == "null":
+                    return "entity line `%s`: shared component %s reported present but its instance is null" % (l, t)
+                cls, val = rest.split("/")
+                m = cur.setdefault(t, ({}, {}))
+                if m[0].setdefault(cls, val) != val:
+                    return "one %s instance carries two values (%s, %s): `%s`" % (t, m[0][cls], val, l)
+                if m[1].setdefault(val, cls) != cls:
+                    return "equal %s values (%s) observed through two different instances: `%s`" % (t, val, l)
     return None
 
 
@@ -569,6 +654,19 @@ class Session:
             return ("tie", "model driver failed: " + mnote)
         if note:
             return ("abort", note)
+        life = [l for l in impl if "LIFECYCLE-ERROR" in l]
+        if life:
+            return ("oracle", "component lifecycle violated: " + life[0][:300])
+        # property oracle: the abstract spec (Lean, executed) against the implementation's own observations
+        spec, snote = run_model(self.drv, ops, sub="world", extra=["spec"])
+        if snote:
+            return ("tie", "spec driver failed: " + snote)
+        d = first_diff(project(impl), spec, spec_line_eq)
+        if d:
+            return ("oracle", "observation %d: implementation `%s` but the specification says `%s`" % (d[0], d[1][:300], d[2][:300]))
+        msg = shared_instances_ok(impl)
+        if msg:
+            return ("oracle", msg)
         if self.prop_oracle:
             msg = self.prop_oracle(ops, impl, model)
             if msg:
